@@ -38,7 +38,7 @@ def want_after(S, want, op):
     for k, w in enumerate(want):
         w = dict(w)
         st = S['samplers_static'][k]
-        if st['upd']:
+        if st['used']:       # every quantizer / selector that takes part in the forward pass must follow the update
             for key, v in op[1].items():
                 if st['comb'] and key in ('gumbel', 'disable_sampling'):
                     continue
@@ -128,6 +128,13 @@ def oracle(S, proto, path, op, a0, a1, obs, want1, probe=None):
         for k, cls in enumerate(S['frozen']):
             if cls is not None and obs[k] == 2:
                 fails.append(('frozen-gets-grad:%s' % cls, '%s of a %s has a non-zero .grad after forward + (loss+cost).backward()' % (names[k], cls)))
+    # (4b) forward + backward is an observer: trainability, groups, switches and sampling options are what the calls made them
+    if op[0] in ('fb', 'fwd'):
+        for what in ('rg', 'nas', 'net', 'flags', 'ldisc'):
+            if a1[what] != a0[what]:
+                d = [names[k] for k in range(len(names)) if a1['rg'][k] != a0['rg'][k]][:6] if what == 'rg' else ''
+                fails.append(('%s-changes-state:%s:%s' % (op[0], method, {'rg': 'requires_grad', 'ldisc': 'discrete_cost'}.get(what, what)),
+                              '%s changed %s %s' % ('a forward pass' if op[0] == 'fwd' else 'forward + (loss+cost).backward()', {'rg': 'requires_grad of'}.get(what, what), d)))
     # (5) a partial update of the sampling options leaves the unspecified ones as they were
     if op[0] == 'update':
         given = '+'.join(sorted(op[1]))
